@@ -6,9 +6,11 @@ package server
 // statement path is replaced: COM_* commands go through SessionExecutor.ExecuteCommand.
 
 import (
+	"bytes"
 	"context"
 	"encoding/json"
 	"fmt"
+	"io"
 	"net"
 	"os"
 	"strings"
@@ -27,6 +29,7 @@ type stmtBackend struct {
 	mu       sync.Mutex
 	executed []string // statements received by Execute, in order
 	failOn   string   // a statement containing this text fails at the backend
+	failNext bool     // the next statement fails at the backend
 	gets     int
 	puts     int
 }
@@ -57,6 +60,10 @@ func (c *stmtFakeConn) Execute(sql string, maxRows int) (*mysql.Result, error) {
 	c.b.mu.Lock()
 	defer c.b.mu.Unlock()
 	c.b.executed = append(c.b.executed, sql)
+	if c.b.failNext {
+		c.b.failNext = false
+		return nil, mysql.NewError(1213, "verif: scripted backend failure (deadlock)")
+	}
 	if c.b.failOn != "" && strings.Contains(sql, c.b.failOn) {
 		return nil, mysql.NewError(1146, "verif: scripted backend failure")
 	}
@@ -121,9 +128,19 @@ func (p *stmtFakePool) GetLastChecked() int64        { return 0 }
 
 // ---------------------------------------------------------------- client side sink
 
-type stmtSinkConn struct{ written int }
+// stmtSinkConn is the client end of the connection: what the harness "sends" is queued in `in` and read by the proxy's
+// own packet reader; what the proxy writes is counted and dropped.
+type stmtSinkConn struct {
+	written int
+	in      bytes.Buffer
+}
 
-func (s *stmtSinkConn) Read(b []byte) (int, error)  { return 0, fmt.Errorf("verif: sink") }
+func (s *stmtSinkConn) Read(b []byte) (int, error) {
+	if s.in.Len() == 0 {
+		return 0, io.EOF
+	}
+	return s.in.Read(b)
+}
 func (s *stmtSinkConn) Write(b []byte) (int, error) { s.written += len(b); return len(b), nil }
 func (s *stmtSinkConn) Close() error                { return nil }
 func (s *stmtSinkConn) LocalAddr() net.Addr {
@@ -163,6 +180,36 @@ type stmtFixture struct {
 	mgr    *Manager
 	be     *stmtBackend
 	logDir string
+	pipes  map[*SessionExecutor]*stmtSinkConn
+}
+
+// send delivers one command the way a client does and the way Session.Run serves it: the framed packet is queued on the
+// connection, the proxy's own reader (mysql.Conn.ReadEphemeralPacket, pooled read buffers) reads it, the session
+// dispatches it (Session.execCommand -> SessionExecutor.ExecuteCommand) and the read buffer is recycled.  The packet
+// bytes belong to the handler only during the call: before the buffer goes back to the pool it is overwritten, which is
+// what the next packet of the connection does to it in Session.Run.
+func (f *stmtFixture) send(se *SessionExecutor, cmd byte, payload []byte) Response {
+	s := se.session
+	pipe := f.pipes[se]
+	n := len(payload) + 1
+	if n >= mysql.MaxPacketSize {
+		panic("verif: packet too large for the harness")
+	}
+	pipe.in.Write([]byte{byte(n), byte(n >> 8), byte(n >> 16), 0, cmd})
+	pipe.in.Write(payload)
+	s.c.SetSequence(0)
+	data, err := s.c.ReadEphemeralPacket()
+	if err != nil || len(data) == 0 {
+		panic(fmt.Sprintf("verif: the proxy's packet reader failed on a harness packet: %v", err))
+	}
+	rs := s.execCommand(data[0], data[1:])
+	for i := range data {
+		data[i] = 0xEE
+	}
+	if !s.c.hasRecycledReadPacket.CompareAndSwap(true, false) {
+		s.c.RecycleReadPacket()
+	}
+	return rs
 }
 
 // cleanup removes the scratch log directory of the statistic manager (call at the end of a test)
@@ -218,7 +265,7 @@ func stmtGetFixture() (*stmtFixture, error) {
 		return nil, err
 	}
 	m.users[current] = um
-	stmtFix = &stmtFixture{mgr: m, be: be, logDir: logDir}
+	stmtFix = &stmtFixture{mgr: m, be: be, logDir: logDir, pipes: map[*SessionExecutor]*stmtSinkConn{}}
 	return stmtFix, nil
 }
 
@@ -235,8 +282,9 @@ func (f *stmtFixture) newSession(multiStatements bool) *SessionExecutor {
 	s.proxy.ServerVersionCompareStatus = util.NewVersionCompareStatus("5.7.25")
 	s.manager = f.mgr
 	s.namespace = stmtNsName
-	s.c = NewClientConn(mysql.NewConn(&stmtSinkConn{}), f.mgr)
-	s.c.hasRecycledReadPacket.Set(true) // there is no read buffer to recycle in this harness
+	pipe := &stmtSinkConn{}
+	s.c = NewClientConn(mysql.NewConn(pipe), f.mgr)
+	f.pipes = map[*SessionExecutor]*stmtSinkConn{se: pipe} // one live session at a time
 	if multiStatements {
 		s.c.capability |= mysql.ClientMultiStatements
 	}
@@ -245,6 +293,7 @@ func (f *stmtFixture) newSession(multiStatements bool) *SessionExecutor {
 	se.SetContextNamespace()
 	f.be.take()
 	f.be.failOn = ""
+	f.be.failNext = false
 	return se
 }
 
